@@ -284,7 +284,7 @@ def _output_time(ctx: Ctx, c: Collector) -> None:
         c.bad("outtime", GETOUT, "sim.output_time", "the tiered output time is never stored", fi.loc)
         return
     e = st[0]
-    v = e.term[2]
+    v = merged_store(st)
     pr: List[str] = []
     unk = None
     if v[0] == "phi":
